@@ -36,40 +36,127 @@ func runC20(e *Engine, r *Report) {
 		"(*internal/server.SSEnv).CreateTempDir", "tools.copySnapshot", "(*internal/server.SSEnv).FinalizeSnapshot",
 	}
 	var mutSites []ssa.CallInstruction
+	toolsPkg := fnPkg(imp)
+	// a mutation site in ImportSnapshot: a direct call of a mutator, or a call
+	// of a same-package helper that contains one
+	sitesOf := func(match func(c ssa.CallInstruction) bool) []ssa.CallInstruction {
+		var out []ssa.CallInstruction
+		forEachCall(imp, func(c ssa.CallInstruction) {
+			if match(c) {
+				out = append(out, c)
+				return
+			}
+			if g := c.Common().StaticCallee(); g != nil && fnPkg(g) == toolsPkg && g != imp {
+				found := false
+				e.forEachInstrRegion(g, 1, func(in ssa.Instruction) {
+					if cc, ok := in.(ssa.CallInstruction); ok && match(cc) {
+						found = true
+					}
+				})
+				if found {
+					out = append(out, c)
+				}
+			}
+		})
+		return out
+	}
+	seenSite := map[ssa.CallInstruction]bool{}
 	for _, m := range mutators {
 		f := r.need(m)
 		if f == nil {
 			continue
 		}
-		ss := e.SitesIn(imp, f)
-		r.check(len(ss) > 0, "MPT-validate-first", m+" called in ImportSnapshot", e.pos(imp.Pos()), "present", "ImportSnapshot no longer calls "+m+" (anchor lost)")
-		mutSites = append(mutSites, ss...)
+		ss := sitesOf(func(c ssa.CallInstruction) bool { return e.CallsTo(c, f) })
+		r.check(len(ss) > 0, "MPT-validate-first", m+" reached from ImportSnapshot", e.pos(imp.Pos()), "present", "ImportSnapshot no longer reaches "+m+" (anchor lost)")
+		for _, x := range ss {
+			if !seenSite[x] {
+				seenSite[x] = true
+				mutSites = append(mutSites, x)
+			}
+		}
 	}
 	// the log-store import (interface call)
 	impM := e.Method("raftio", "ILogDB", "ImportSnapshot")
-	mutSites = append(mutSites, e.MethodSitesIn(imp, impM)...)
-	r.floor("MPT-validate-first-mutators", len(mutSites), 8)
+	for _, x := range sitesOf(func(c ssa.CallInstruction) bool { return e.IsMethodCall(c, impM) }) {
+		if !seenSite[x] {
+			seenSite[x] = true
+			mutSites = append(mutSites, x)
+		}
+	}
+	r.floor("MPT-validate-first-mutators", len(mutSites), 5)
+	ici := e.Func("tools.isCompleteSnapshotImage")
+	var verdict Req
+	if ici != nil {
+		verdict = reqBool("the image check returned true", func(v ssa.Value) bool {
+			ex, ok := v.(*ssa.Extract)
+			return ok && ex.Index == 0 && e.callV(ici)(ex)
+		}, true)
+	}
+	// validated(ms, vf): ms runs only after a successful vf (and, for the
+	// image check, its positive verdict): directly in ImportSnapshot, or
+	// through a helper whose every successful return lies behind them
+	validated := func(ms ssa.CallInstruction, vf *ssa.Function, needVerdict bool) bool {
+		in := ms.(ssa.Instruction)
+		if o, _ := e.alwaysPrecededBy(in, isCall(vf), 0); o && notFromErrEdge(e, imp, vf, ms) {
+			if !needVerdict {
+				return true
+			}
+			if g, _ := e.guardedOnAllPaths(in, verdict); g {
+				return true
+			}
+		}
+		okHelper := false
+		forEachCall(imp, func(c ssa.CallInstruction) {
+			g := c.Common().StaticCallee()
+			if g == nil || fnPkg(g) != toolsPkg || g == vf || len(e.SitesIn(g, vf)) == 0 {
+				return
+			}
+			// every success return of g is behind a successful vf (+ verdict)
+			good := true
+			n := 0
+			forEachInstr(g, func(x ssa.Instruction) {
+				if !e.isSuccessReturn(x) {
+					return
+				}
+				n++
+				if o, _ := e.alwaysPrecededBy(x, isCall(vf), 0); !o {
+					good = false
+				}
+				for _, vs := range e.SitesIn(g, vf) {
+					if vc, ok := vs.(*ssa.Call); ok && e.reachableFromErrEdgeOf(g, vc, x) {
+						good = false
+					}
+				}
+				if needVerdict {
+					if gd, _ := e.guardedOnAllPaths(x, verdict); !gd {
+						good = false
+					}
+				}
+			})
+			if !good || n == 0 {
+				return
+			}
+			if o, _ := e.alwaysPrecededBy(in, func(y ssa.Instruction) bool { return y == c.(ssa.Instruction) }, 0); o && notFromErrEdge(e, imp, g, ms) {
+				okHelper = true
+			}
+		})
+		return okHelper
+	}
 	for _, v := range validators {
 		vf := r.need(v.fn)
 		if vf == nil {
 			continue
 		}
 		for _, ms := range mutSites {
-			o, _ := e.alwaysPrecededBy(ms.(ssa.Instruction), isCall(vf), 0)
-			okEdge := notFromErrEdge(e, imp, vf, ms)
-			r.check(o && okEdge, "MPT-validate-first", calleeLabel(e, ms)+" only after "+v.what, e.ipos(ms),
+			r.check(validated(ms, vf, false), "MPT-validate-first", calleeLabel(e, ms)+" only after "+v.what, e.ipos(ms),
 				"existing data is touched only after the import request was validated",
 				"ImportSnapshot can modify existing data before/without the validation: "+v.what)
 		}
 	}
 	// the boolean result of the image check gates
-	if ici := e.Func("tools.isCompleteSnapshotImage"); ici != nil {
+	if ici != nil {
 		for _, ms := range mutSites {
-			g, _ := e.guardedOnAllPaths(ms.(ssa.Instruction), reqBool("", func(v ssa.Value) bool {
-				ex, ok := v.(*ssa.Extract)
-				return ok && ex.Index == 0 && e.callV(ici)(ex)
-			}, true))
-			r.check(g, "MPT-validate-first", calleeLabel(e, ms)+" only when the image check returned true", e.ipos(ms), "an incomplete or altered export is refused before anything is modified", "data can be modified although the image check returned false")
+			r.check(validated(ms, ici, true), "MPT-validate-first", calleeLabel(e, ms)+" only when the image check returned true", e.ipos(ms), "an incomplete or altered export is refused before anything is modified", "data can be modified although the image check returned false")
 		}
 		// it compares the payload checksum with the recorded one
 		ck := e.Field("raftpb", "Snapshot", "Checksum")
@@ -153,29 +240,54 @@ func runC20(e *Engine, r *Report) {
 	}
 	// ---- the rewritten record
 	if gp := r.need("tools.getProcessedSnapshotRecord"); gp != nil {
-		ranged := map[string]bool{}
 		removedFrom := map[string]bool{}
-		forEachInstr(gp, func(in ssa.Instruction) {
-			if rg, ok := in.(*ssa.Range); ok {
-				if f, _, ok := loadedField(rg.X); ok {
-					ranged[f.Name()] = true
+		// the maps a range instruction iterates: a membership field, or - when
+		// the loop sits in a local closure called once per map - the fields
+		// passed to that closure
+		rangeFields := func(rg *ssa.Range) []string {
+			if f, _, ok := loadedField(rg.X); ok {
+				return []string{f.Name()}
+			}
+			p, ok := rg.X.(*ssa.Parameter)
+			if !ok || p.Parent().Parent() == nil {
+				return nil
+			}
+			cl := p.Parent()
+			idx := -1
+			for i, q := range cl.Params {
+				if q == p {
+					idx = i
 				}
 			}
+			var out []string
+			forEachCall(cl.Parent(), func(c ssa.CallInstruction) {
+				callee := false
+				for _, g := range e.Callees(c) {
+					if g == cl {
+						callee = true
+					}
+				}
+				if !callee || idx < 0 || idx >= len(c.Common().Args) {
+					return
+				}
+				if f, _, ok := loadedField(c.Common().Args[idx]); ok {
+					out = append(out, f.Name())
+				}
+			})
+			return out
+		}
+		e.forEachInstrRegion(gp, 1, func(in ssa.Instruction) {
 			if mu, ok := in.(*ssa.MapUpdate); ok {
 				if f, _, ok := loadedField(mu.Map); ok && f.Name() == "Removed" {
-					// which range does the key come from?
-					for _, k := range []string{"Addresses", "NonVotings", "Witnesses", "Removed"} {
-						if e.dependsOn(mu.Key, func(v ssa.Value) bool {
-							rg, ok := v.(*ssa.Range)
-							if !ok {
-								return false
+					// which range(s) does the key come from?
+					e.dependsOn(mu.Key, func(v ssa.Value) bool {
+						if rg, ok := v.(*ssa.Range); ok {
+							for _, k := range rangeFields(rg) {
+								removedFrom[k] = true
 							}
-							ff, _, ok := loadedField(rg.X)
-							return ok && ff.Name() == k
-						}, 0) {
-							removedFrom[k] = true
 						}
-					}
+						return false
+					}, 0)
 				}
 			}
 		})
@@ -203,7 +315,18 @@ func runC20(e *Engine, r *Report) {
 						if !ok {
 							return false
 						}
-						p, ok := rg.X.(*ssa.Parameter)
+						x := rg.X
+						if ld, isLd := x.(*ssa.UnOp); isLd {
+							// a parameter captured by a closure lives in a cell
+							if al := rootAlloc(ld.X); al != nil {
+								for _, sv := range storesInto(al) {
+									if p, ok := sv.(*ssa.Parameter); ok && p.Name() == "members" {
+										return true
+									}
+								}
+							}
+						}
+						p, ok := x.(*ssa.Parameter)
 						return ok && p.Name() == "members"
 					}, 0) {
 						okAddr = true
